@@ -234,6 +234,7 @@ def focused(tier):
     out += sched_preempt_chain(tier)
     out += ageing_priorities(tier)
     out += per_class_per_node_reneging(tier)
+    out += mixed_tandem(tier)
     return out
 
 
